@@ -9,6 +9,7 @@ from typing import TextIO
 
 from liquid import ast
 from liquid.builtin.expressions import parse_identifier
+from liquid.builtin.expressions import quote_identifier
 from liquid.tag import Tag
 from liquid.token import TOKEN_TAG
 from liquid.token import Token
@@ -32,7 +33,7 @@ class DecrementNode(ast.Node):
         self.blank = False
 
     def __str__(self) -> str:
-        return f"{{% decrement {self.name} %}}"
+        return f"{{% decrement {quote_identifier(self.name)} %}}"
 
     def render_to_output(self, context: RenderContext, buffer: TextIO) -> int:
         """Render the node to the output buffer."""
